@@ -155,10 +155,13 @@ namespace Spec
 /-- §2.3 node tests.  Principal node type: attribute on the attribute axis, element otherwise. -/
 def testOK (d : Doc) (attrAxis : Bool) (t : Test) (m : Nat) : Bool :=
   match t with
-  | .name s => d.kind m == (if attrAxis then Kind.attr else Kind.elem) && d.name m == s
-  | .qname _ uri loc => d.kind m == (if attrAxis then Kind.attr else Kind.elem) && d.name m == "{" ++ uri ++ "}" ++ loc
-  | .nsAny _ uri => d.kind m == (if attrAxis then Kind.attr else Kind.elem) && ("{" ++ uri ++ "}").isPrefixOf (d.name m)
-  | .any => d.kind m == (if attrAxis then Kind.attr else Kind.elem)
+  -- a name test selects nodes of the principal node type; a namespace declaration is not an attribute (§5.3/§5.4)
+  | .name s => d.kind m == (if attrAxis then Kind.attr else Kind.elem) && d.name m == s && !(attrAxis && Doc.isNsDeclName (d.name m))
+  | .qname _ uri loc => d.kind m == (if attrAxis then Kind.attr else Kind.elem) && d.name m == "{" ++ uri ++ "}" ++ loc &&
+      !(attrAxis && Doc.isNsDeclName (d.name m))
+  | .nsAny _ uri => d.kind m == (if attrAxis then Kind.attr else Kind.elem) && ("{" ++ uri ++ "}").isPrefixOf (d.name m) &&
+      !(attrAxis && Doc.isNsDeclName (d.name m))
+  | .any => d.kind m == (if attrAxis then Kind.attr else Kind.elem) && !(attrAxis && Doc.isNsDeclName (d.name m))
   | .text => d.kind m == .text
   | .comment => d.kind m == .comment
   | .pi => d.kind m == .pi
